@@ -85,53 +85,59 @@ Proof.
   apply andb_true_iff in H. destruct H as [H1 H2]. apply Nat.eqb_eq in H1. subst. f_equal. auto.
 Qed.
 
+Lemma ckey_eqb_eq a b : ckey_eqb a b = true -> a = b.
+Proof.
+  destruct a as [t m], b as [t' m']. unfold ckey_eqb; cbn. intros H.
+  apply andb_true_iff in H. destruct H as [H1 H2]. apply Z.eqb_eq in H1. apply Z.eqb_eq in H2. subst. reflexivity.
+Qed.
+
+Lemma ckey_eqb_refl a : ckey_eqb a a = true.
+Proof. destruct a. unfold ckey_eqb; cbn. rewrite !Z.eqb_refl. reflexivity. Qed.
+
 Lemma key_eqb_eq a b : key_eqb a b = true -> a = b.
 Proof.
   destruct a as [t p], b as [t' p']. unfold key_eqb; cbn. intros H.
-  apply andb_true_iff in H. destruct H as [H1 H2]. apply Z.eqb_eq in H1. apply path_eqb_eq in H2. subst. reflexivity.
+  apply andb_true_iff in H. destruct H as [H1 H2]. apply ckey_eqb_eq in H1. apply path_eqb_eq in H2. subst. reflexivity.
 Qed.
 
 Section A.
   Variable clear_on_set : bool.
-  Variable parse : text -> expr.
+  Variable parse : text -> module -> expr * module.
+
+  (* the tree a key stands for when the key records the module the text was parsed under *)
+  Definition tree_of (k : ckey) : expr := fst (parse (fst k) (snd k)).
 
   Definition wf (st : istate) : Prop :=
-    (forall t c, clookup t (ccache st) = Some (Some c) -> c = parse t /\ syn c = true) /\
-    (forall t p c, mlookup (t, p) (memo st) = Some (Some c) -> subexpr (parse t) p = Some c /\ syn c = true).
+    (forall k e, plookup k (pcache st) = Some e -> e = tree_of k) /\
+    (forall k c, clookup k (ccache st) = Some (Some c) -> c = tree_of k /\ syn c = true) /\
+    (forall k p c, mlookup (k, p) (memo st) = Some (Some c) -> subexpr (tree_of k) p = Some c /\ syn c = true).
 
   Lemma wf_fresh s : wf (fresh s).
-  Proof. split; cbn; intros; discriminate. Qed.
+  Proof. split; [|split]; cbn; intros; discriminate. Qed.
 
-  Lemma wf_set_vars st s cc : wf st -> (cc = ccache st \/ cc = []) -> wf (mk_istate s (pcache st) cc (memo st)).
+  (* one node: the cached / memoised evaluation is the pure one; the parser state is not touched *)
+  Lemma ev_correct k : forall e root p st,
+    wf st -> subexpr (tree_of k) p = Some e ->
+    let r := ev true clear_on_set k root p e st in
+    wf (snd r) /\ cur (snd r) = cur st /\ pcache (snd r) = pcache st /\
+    (fst r, vars (snd r)) = eval_pure e (vars st).
   Proof.
-    intros [W1 W2] Hc. split; cbn; [|exact W2].
-    destruct Hc as [->| ->]; [exact W1|]. cbn; intros; discriminate.
-  Qed.
-
-  (* one node: the cached / memoised evaluation is the pure one *)
-  Lemma ev_correct t : forall e root p st,
-    wf st -> subexpr (parse t) p = Some e ->
-    wf (snd (ev true clear_on_set t root p e st)) /\
-    (fst (ev true clear_on_set t root p e st), vars (snd (ev true clear_on_set t root p e st)))
-      = eval_pure e (vars st).
-  Proof.
-    induction e as [v|n|o a IHa b IHb|a IHa|n e IHe]; intros root p st W Hp.
-    - cbn. split; [exact W|reflexivity].
-    - cbn. destruct (slookup n (vars st)); cbn; split; try exact W; reflexivity.
+    induction e as [v|n|o a IHa b IHb|a IHa|n e IHe]; intros root p st W Hp; cbn zeta.
+    - cbn. split; [exact W|repeat split; reflexivity].
+    - cbn. destruct (slookup n (vars st)); cbn; (split; [exact W|repeat split; reflexivity]).
     - (* EBin *)
       cbn [ev eval_pure].
-      (* the interpreter path is the pure one from any well-formed state with the same variables *)
-      assert (Hint : forall st', wf st' -> vars st' = vars st ->
-                 let r := (let (rb, st1) := ev true clear_on_set t false (p ++ [1%nat]) b st' in
+      assert (Hint : forall st', wf st' -> vars st' = vars st -> cur st' = cur st -> pcache st' = pcache st ->
+                 let r := (let (rb, st1) := ev true clear_on_set k false (p ++ [1%nat]) b st' in
                            match rb with
                            | Err => (Err, st1)
-                           | Ok vb => let (ra, st2) := ev true clear_on_set t false (p ++ [0%nat]) a st1 in
+                           | Ok vb => let (ra, st2) := ev true clear_on_set k false (p ++ [0%nat]) a st1 in
                                       match ra with
                                       | Err => (Err, st2)
                                       | Ok va => (kl_bin o va vb, st2)
                                       end
                            end) in
-                 wf (snd r) /\ (fst r, vars (snd r)) =
+                 wf (snd r) /\ cur (snd r) = cur st /\ pcache (snd r) = pcache st /\ (fst r, vars (snd r)) =
                    (let (rb, s1) := eval_pure b (vars st) in
                     match rb with
                     | Err => (Err, s1)
@@ -141,45 +147,44 @@ Section A.
                                | Ok va => (kl_bin o va vb, s2)
                                end
                     end)).
-      { intros st' W' Hv. cbn zeta.
-        assert (Hb : subexpr (parse t) (p ++ [1%nat]) = Some b) by (rewrite (subexpr_app _ _ _ _ Hp); reflexivity).
-        assert (Ha : subexpr (parse t) (p ++ [0%nat]) = Some a) by (rewrite (subexpr_app _ _ _ _ Hp); reflexivity).
-        destruct (IHb false _ st' W' Hb) as [Wb Eb]. rewrite Hv in Eb.
-        destruct (ev true clear_on_set t false (p ++ [1%nat]) b st') as [rb st1]. cbn [fst snd] in *.
+      { intros st' W' Hv Hc Hpc. cbn zeta.
+        assert (Hb : subexpr (tree_of k) (p ++ [1%nat]) = Some b) by (rewrite (subexpr_app _ _ _ _ Hp); reflexivity).
+        assert (Ha : subexpr (tree_of k) (p ++ [0%nat]) = Some a) by (rewrite (subexpr_app _ _ _ _ Hp); reflexivity).
+        destruct (IHb false _ st' W' Hb) as (Wb & Cb & Pb & Eb). cbn zeta in *. rewrite Hv in Eb.
+        destruct (ev true clear_on_set k false (p ++ [1%nat]) b st') as [rb st1]. cbn [fst snd] in *.
         destruct (eval_pure b (vars st)) as [rb' s1]. inversion Eb; subst rb' s1.
-        destruct rb as [vb|]; [|cbn; split; [exact Wb|reflexivity]].
-        destruct (IHa false _ st1 Wb Ha) as [Wa Ea].
-        destruct (ev true clear_on_set t false (p ++ [0%nat]) a st1) as [ra st2]. cbn [fst snd] in *.
+        destruct rb as [vb|]; [|cbn; split; [exact Wb|repeat split; congruence]].
+        destruct (IHa false _ st1 Wb Ha) as (Wa & Ca & Pa & Ea). cbn zeta in *.
+        destruct (ev true clear_on_set k false (p ++ [0%nat]) a st1) as [ra st2]. cbn [fst snd] in *.
         destruct (eval_pure a (vars st1)) as [ra' s2]. inversion Ea; subst ra' s2.
-        destruct ra; cbn; split; try exact Wa; reflexivity. }
-      (* where the code comes from *)
+        destruct ra; cbn; (split; [exact Wa|repeat split; congruence]). }
       set (cs := if root then (compile (EBin o a b) (vars st), st)
-                 else match mlookup (t, p) (memo st) with
+                 else match mlookup (k, p) (memo st) with
                       | Some c => (c, st)
                       | None => (compile (EBin o a b) (vars st),
-                                 mk_istate (vars st) (pcache st) (ccache st) (((t, p), compile (EBin o a b) (vars st)) :: memo st))
+                                 mk_istate (vars st) (cur st) (pcache st) (ccache st) (((k, p), compile (EBin o a b) (vars st)) :: memo st))
                       end).
-      assert (Hcs : wf (snd cs) /\ vars (snd cs) = vars st /\
+      assert (Hcs : wf (snd cs) /\ vars (snd cs) = vars st /\ cur (snd cs) = cur st /\ pcache (snd cs) = pcache st /\
                     forall c, fst cs = Some c -> c = EBin o a b /\ syn c = true).
       { unfold cs. destruct root.
-        - cbn. split; [exact W|]. split; [reflexivity|]. intros c Hc. apply compile_some in Hc. exact Hc.
-        - destruct (mlookup (t, p) (memo st)) as [c0|] eqn:EM.
-          + cbn. split; [exact W|]. split; [reflexivity|]. intros c Hc. subst c0.
-            destruct W as [_ W2]. destruct (W2 _ _ _ EM) as [Hs Hy]. rewrite Hp in Hs. inversion Hs; subst. split; [reflexivity|exact Hy].
-          + cbn. split; [|split; [reflexivity|intros c Hc; apply compile_some in Hc; exact Hc]].
-            destruct W as [W1 W2]. split; cbn; [exact W1|].
-            intros t' p' c Hl. cbn [mlookup] in Hl.
-            destruct (key_eqb (t', p') (t, p)) eqn:EK.
+        - cbn. split; [exact W|]. split; [reflexivity|]. split; [reflexivity|]. split; [reflexivity|]. intros c Hc. apply compile_some in Hc. exact Hc.
+        - destruct (mlookup (k, p) (memo st)) as [c0|] eqn:EM.
+          + cbn. split; [exact W|]. split; [reflexivity|]. split; [reflexivity|]. split; [reflexivity|]. intros c Hc. subst c0.
+            destruct W as (_ & _ & W2). destruct (W2 _ _ _ EM) as [Hs Hy]. rewrite Hp in Hs. inversion Hs; subst. split; [reflexivity|exact Hy].
+          + cbn. split; [|split; [reflexivity|split; [reflexivity|split; [reflexivity|intros c Hc; apply compile_some in Hc; exact Hc]]]].
+            destruct W as (W0 & W1 & W2). split; [exact W0|]. split; cbn; [exact W1|].
+            intros k' p' c Hl. cbn [mlookup] in Hl.
+            destruct (key_eqb (k', p') (k, p)) eqn:EK.
             * apply key_eqb_eq in EK. inversion EK; subst. assert (Hc : compile (EBin o a b) (vars st) = Some c) by congruence.
               apply compile_some in Hc. destruct Hc as [-> Hy]. split; [exact Hp|exact Hy].
             * apply W2. exact Hl. }
-      destruct cs as [code st'] eqn:Ecs. cbn [fst snd] in Hcs. destruct Hcs as (W' & Hv & Hc).
+      destruct cs as [code st'] eqn:Ecs. cbn [fst snd] in Hcs. destruct Hcs as (W' & Hv & Hcu & Hpc & Hc).
       destruct code as [c|].
       + destruct (Hc c eq_refl) as [-> Hy].
         unfold try_compiled. cbn [andb].
         destruct (operands_ok (EBin o a b) (vars st')) eqn:EO; cbn [negb].
         * destruct (py_run (EBin o a b) (vars st')) as [v|] eqn:EP.
-          -- cbn [fst snd]. split; [exact W'|].
+          -- cbn [fst snd]. split; [exact W'|]. split; [exact Hcu|]. split; [exact Hpc|].
              destruct (compiled_sound _ _ _ Hy EO EP) as [_ Hpure]. rewrite Hv in Hpure.
              cbn [eval_pure] in Hpure. rewrite Hpure, Hv. reflexivity.
           -- apply Hint; assumption.
@@ -187,88 +192,125 @@ Section A.
       + apply Hint; assumption.
     - (* ESize *)
       cbn [ev eval_pure].
-      assert (Ha : subexpr (parse t) (p ++ [0%nat]) = Some a) by (rewrite (subexpr_app _ _ _ _ Hp); reflexivity).
-      destruct (IHa false _ st W Ha) as [Wa Ea].
-      destruct (ev true clear_on_set t false (p ++ [0%nat]) a st) as [ra st1]. cbn [fst snd] in *.
+      assert (Ha : subexpr (tree_of k) (p ++ [0%nat]) = Some a) by (rewrite (subexpr_app _ _ _ _ Hp); reflexivity).
+      destruct (IHa false _ st W Ha) as (Wa & Ca & Pa & Ea). cbn zeta in *.
+      destruct (ev true clear_on_set k false (p ++ [0%nat]) a st) as [ra st1]. cbn [fst snd] in *.
       destruct (eval_pure a (vars st)) as [ra' s1]. inversion Ea; subst ra' s1.
-      destruct ra; cbn; split; try exact Wa; reflexivity.
+      destruct ra; cbn; (split; [exact Wa|repeat split; assumption]).
     - (* EDef *)
       cbn [ev eval_pure].
-      assert (He : subexpr (parse t) (p ++ [1%nat]) = Some e) by (rewrite (subexpr_app _ _ _ _ Hp); reflexivity).
-      destruct (IHe false _ st W He) as [We Ee].
-      destruct (ev true clear_on_set t false (p ++ [1%nat]) e st) as [r st1]. cbn [fst snd] in *.
+      assert (He : subexpr (tree_of k) (p ++ [1%nat]) = Some e) by (rewrite (subexpr_app _ _ _ _ Hp); reflexivity).
+      destruct (IHe false _ st W He) as (We & Ce & Pe & Ee). cbn zeta in *.
+      destruct (ev true clear_on_set k false (p ++ [1%nat]) e st) as [r st1]. cbn [fst snd] in *.
       destruct (eval_pure e (vars st)) as [r' s1]. inversion Ee; subst r' s1.
-      destruct r; cbn; [|split; [exact We|reflexivity]].
-      split; [|reflexivity]. apply wf_set_vars; [exact We|]. destruct clear_on_set; auto.
+      destruct r; cbn; [|split; [exact We|repeat split; assumption]].
+      split; [|repeat split; assumption].
+      destruct We as (W0 & W1 & W2). split; [exact W0|]. split; cbn; [|exact W2].
+      destruct clear_on_set; [cbn; intros; discriminate|exact W1].
   Qed.
 
+  Lemma run_tree_correct k st0 :
+    wf st0 ->
+    let r := run_tree true clear_on_set k (tree_of k) st0 in
+    wf (snd r) /\ cur (snd r) = cur st0 /\ (fst r, vars (snd r)) = eval_pure (tree_of k) (vars st0).
+  Proof.
+    intros W0. unfold run_tree.
+    destruct (clookup k (ccache st0)) as [c0|] eqn:EC.
+    - assert (Hroot : let r := ev true clear_on_set k true [] (tree_of k) st0 in
+                      wf (snd r) /\ cur (snd r) = cur st0 /\ (fst r, vars (snd r)) = eval_pure (tree_of k) (vars st0)).
+      { destruct (ev_correct k (tree_of k) true [] st0 W0 eq_refl) as (Wr & Cr & _ & Er). cbn zeta in *. auto. }
+      destruct c0 as [c|]; [|exact Hroot].
+      destruct (proj1 (proj2 W0) _ _ EC) as [-> Hy].
+      unfold try_compiled. cbn [andb].
+      destruct (operands_ok (tree_of k) (vars st0)) eqn:EO; cbn [negb]; [|exact Hroot].
+      destruct (py_run (tree_of k) (vars st0)) as [v|] eqn:EP; [|exact Hroot].
+      cbn [fst snd]. split; [exact W0|]. split; [reflexivity|].
+      destruct (compiled_sound _ _ _ Hy EO EP) as [_ Hpure]. rewrite Hpure. reflexivity.
+    - set (st1 := mk_istate (vars st0) (cur st0) (pcache st0) ((k, compile (tree_of k) (vars st0)) :: ccache st0) (memo st0)).
+      assert (W1 : wf st1).
+      { destruct W0 as (Wa & Wb & Wc). split; [exact Wa|]. split; cbn; [|exact Wc].
+        intros k' c Hl. destruct (ckey_eqb k' k) eqn:EK.
+        + apply ckey_eqb_eq in EK. subst k'. assert (Hc : compile (tree_of k) (vars st0) = Some c) by congruence.
+          apply compile_some in Hc. exact Hc.
+        + apply Wb. exact Hl. }
+      assert (Hroot : let r := ev true clear_on_set k true [] (tree_of k) st1 in
+                      wf (snd r) /\ cur (snd r) = cur st0 /\ (fst r, vars (snd r)) = eval_pure (tree_of k) (vars st0)).
+      { destruct (ev_correct k (tree_of k) true [] st1 W1 eq_refl) as (Wr & Cr & _ & Er). cbn zeta in *. auto. }
+      destruct (compile (tree_of k) (vars st0)) as [c|] eqn:ECo; [|exact Hroot].
+      apply compile_some in ECo. destruct ECo as [-> Hy].
+      unfold try_compiled. cbn [andb]. change (vars st1) with (vars st0).
+      destruct (operands_ok (tree_of k) (vars st0)) eqn:EO; cbn [negb]; [|exact Hroot].
+      destruct (py_run (tree_of k) (vars st0)) as [v|] eqn:EP; [|exact Hroot].
+      cbn [fst snd]. split; [exact W1|]. split; [reflexivity|].
+      destruct (compiled_sound _ _ _ Hy EO EP) as [_ Hpure]. rewrite Hpure. reflexivity.
+  Qed.
+
+  (* __call__ with the (text, module) key, outside the known-finding class *)
   Lemma run_cached_correct st t :
-    wf st ->
-    wf (snd (run_cached true clear_on_set parse st t)) /\
-    (fst (run_cached true clear_on_set parse st t), vars (snd (run_cached true clear_on_set parse st t)))
-      = eval_pure (parse t) (vars st).
+    wf st -> cached_switch true parse st t = false ->
+    let r := run_cached true clear_on_set true parse st t in
+    wf (snd r) /\
+    (fst r, (cur (snd r), vars (snd r))) = eval_ref parse (cur st, vars st) t.
   Proof.
-    intros W. unfold run_cached.
-    set (st0 := mk_istate (vars st) (if existsb (Z.eqb t) (pcache st) then pcache st else t :: pcache st) (ccache st) (memo st)).
-    assert (W0 : wf st0) by (destruct W as [W1 W2]; split; cbn; assumption).
-    set (cs := match clookup t (ccache st0) with
-               | Some c => (c, st0)
-               | None => (compile (parse t) (vars st0),
-                          mk_istate (vars st0) (pcache st0) ((t, compile (parse t) (vars st0)) :: ccache st0) (memo st0))
-               end).
-    assert (Hcs : wf (snd cs) /\ vars (snd cs) = vars st /\ forall c, fst cs = Some c -> c = parse t /\ syn c = true).
-    { unfold cs. destruct (clookup t (ccache st0)) as [c0|] eqn:EC.
-      - cbn. split; [exact W0|]. split; [reflexivity|]. intros c ->. destruct W0 as [W1 _]. apply W1. exact EC.
-      - cbn. split; [|split; [reflexivity|intros c Hc; apply compile_some in Hc; exact Hc]].
-        destruct W0 as [W1 W2]. split; cbn; [|exact W2].
-        intros t' c Hl. destruct (Z.eqb_spec t' t) as [->|Hne].
-        + inversion Hl as [Hc]. apply compile_some in Hc. exact Hc.
-        + apply W1. exact Hl. }
-    destruct cs as [code st1] eqn:Ecs. cbn [fst snd] in Hcs. destruct Hcs as (W1 & Hv & Hc).
-    assert (Hroot : wf (snd (ev true clear_on_set t true [] (parse t) st1)) /\
-                    (fst (ev true clear_on_set t true [] (parse t) st1), vars (snd (ev true clear_on_set t true [] (parse t) st1)))
-                      = eval_pure (parse t) (vars st)).
-    { rewrite <- Hv. apply ev_correct; [exact W1|reflexivity]. }
-    destruct code as [c|]; [|exact Hroot].
-    destruct (Hc c eq_refl) as [-> Hy].
-    unfold try_compiled. cbn [andb].
-    destruct (operands_ok (parse t) (vars st1)) eqn:EO; cbn [negb]; [|exact Hroot].
-    destruct (py_run (parse t) (vars st1)) as [v|] eqn:EP; [|exact Hroot].
-    cbn [fst snd]. split; [exact W1|].
-    destruct (compiled_sound _ _ _ Hy EO EP) as [_ Hpure]. rewrite Hv in Hpure. rewrite Hpure, Hv. reflexivity.
+    intros W HK. unfold run_cached, eval_ref, cached_switch, key_of in *. cbn [fst snd] in *.
+    change (if true then cur st else 0) with (cur st) in *.
+    set (k := (t, cur st)) in *.
+    destruct (plookup k (pcache st)) as [e|] eqn:EP.
+    - assert (e = tree_of k) by (apply (proj1 W); exact EP). subst e.
+      destruct (run_tree_correct k st W) as (Wr & Cr & Er). cbn zeta in *.
+      split; [exact Wr|].
+      apply negb_false_iff, Z.eqb_eq in HK.
+      unfold tree_of, k in *; cbn [fst snd] in *.
+      destruct (parse t (cur st)) as [e m'] eqn:EQ. cbn [fst snd] in *. subst m'.
+      rewrite Cr. destruct (eval_pure e (vars st)) as [rr ss]. inversion Er. reflexivity.
+    - destruct (parse t (cur st)) as [e m'] eqn:EQ.
+      assert (He : e = tree_of k) by (unfold tree_of, k; cbn; rewrite EQ; reflexivity).
+      assert (Href : eval_pure e (vars st) = eval_pure (tree_of k) (vars st)) by (rewrite He; reflexivity).
+      rewrite Href. clear Href. rewrite He. clear He EQ e.
+      set (st0 := mk_istate (vars st) m' ((k, tree_of k) :: pcache st) (ccache st) (memo st)).
+      assert (W0 : wf st0).
+      { destruct W as (Wa & Wb & Wc). split; [|split; cbn; assumption].
+        cbn. intros k' e' Hl. destruct (ckey_eqb k' k) eqn:EK.
+        + apply ckey_eqb_eq in EK. subst k'. congruence.
+        + apply Wa. exact Hl. }
+      pose proof (run_tree_correct k st0 W0) as HR. unfold st0 in *. clear st0. cbv zeta in HR.
+      destruct HR as (Wr & Cr & Er). cbn [cur vars] in Cr, Er.
+      split; [exact Wr|].
+      destruct (eval_pure (tree_of k) (vars st)) as [rr ss].
+      injection Er as E1 E2. exact (f_equal2 pair E1 (f_equal2 pair Cr E2)).
   Qed.
 
-  Lemma state_after_wf h : forall st, wf st -> wf (state_after true clear_on_set parse st h).
+  Lemma history_correct h : forall st,
+    wf st -> no_cached_switch true clear_on_set true parse st h = true ->
+    wf (state_after true clear_on_set true parse st h) /\
+    (cur (state_after true clear_on_set true parse st h), vars (state_after true clear_on_set true parse st h))
+      = ref_after parse (cur st, vars st) h.
   Proof.
-    induction h as [|t r IH]; intros st W; cbn [state_after]; [exact W|].
-    apply IH. apply run_cached_correct. exact W.
-  Qed.
-
-  (* the variable state after a history is the one the pure interpreter produces *)
-  Fixpoint pure_after (s : store) (h : list text) : store :=
-    match h with
-    | [] => s
-    | t :: r => pure_after (snd (eval_pure (parse t) s)) r
-    end.
-
-  Lemma state_after_vars h : forall st, wf st ->
-    vars (state_after true clear_on_set parse st h) = pure_after (vars st) h.
-  Proof.
-    induction h as [|t r IH]; intros st W; cbn [state_after pure_after]; [reflexivity|].
-    destruct (run_cached_correct st t W) as [W' E].
-    rewrite IH by exact W'. f_equal.
-    destruct (eval_pure (parse t) (vars st)). inversion E. reflexivity.
+    induction h as [|t r IH]; intros st W HK; cbn [state_after ref_after no_cached_switch] in *; [split; [exact W|reflexivity]|].
+    apply andb_true_iff in HK. destruct HK as [HK1 HK2]. apply negb_true_iff in HK1.
+    destruct (run_cached_correct st t W HK1) as [W' E]. cbn zeta in *.
+    destruct (IH _ W' HK2) as [W2 E2]. split; [exact W2|]. rewrite E2. f_equal.
+    destruct (eval_ref parse (cur st, vars st) t) as [rr ms]. inversion E. reflexivity.
   Qed.
 
   Lemma cache_transparent s0 h t :
-    let st := state_after true clear_on_set parse (fresh s0) h in
-    (fst (run_cached true clear_on_set parse st t), vars (snd (run_cached true clear_on_set parse st t)))
-      = eval_pure (parse t) (vars st)
-    /\ vars st = pure_after s0 h.
+    no_cached_switch true clear_on_set true parse (fresh s0) (h ++ [t]) = true ->
+    let st := state_after true clear_on_set true parse (fresh s0) h in
+    let r := run_cached true clear_on_set true parse st t in
+    (fst r, (cur (snd r), vars (snd r))) = eval_ref parse (cur st, vars st) t
+    /\ (cur st, vars st) = ref_after parse (0, s0) h.
   Proof.
-    cbn zeta. split.
-    - apply run_cached_correct. apply state_after_wf. apply wf_fresh.
-    - apply (state_after_vars h (fresh s0)). apply wf_fresh.
+    intros HK. cbn zeta.
+    assert (Hsplit : forall h st, no_cached_switch true clear_on_set true parse st (h ++ [t]) = true ->
+              no_cached_switch true clear_on_set true parse st h = true /\
+              cached_switch true parse (state_after true clear_on_set true parse st h) t = false).
+    { induction h0 as [|a r IH]; intros st H; cbn [app no_cached_switch state_after] in *.
+      - apply andb_true_iff in H. destruct H as [H _]. apply negb_true_iff in H. split; [reflexivity|exact H].
+      - apply andb_true_iff in H. destruct H as [H1 H2]. destruct (IH _ H2) as [Ha Hb]. rewrite H1, Ha. split; [reflexivity|exact Hb]. }
+    destruct (Hsplit h (fresh s0) HK) as [Hh Ht].
+    destruct (history_correct h (fresh s0) (wf_fresh s0) Hh) as [W E].
+    split; [|exact E].
+    apply run_cached_correct; assumption.
   Qed.
 End A.
 
